@@ -90,6 +90,8 @@ def _clone(v, memo):
         n.module = getattr(v, 'module', None)
         if hasattr(v, 'mro'):
             n.mro = v.mro
+        if hasattr(v, 'lazy_factory'):
+            n.lazy_factory = v.lazy_factory
         memo[id(v)] = n
         n.attrs = {k: _clone(x, memo) for k, x in v.attrs.items()}
         return n
@@ -152,9 +154,10 @@ class CalleeContract(object):
     """Modular contract of a callee: callable(ex, state, args, kwargs, node)
     -> value; it must emit the pre obligations itself via ex.oblige()."""
 
-    def __init__(self, fn, name=''):
+    def __init__(self, fn, name='', bind=False):
         self.fn = fn
         self.name = name
+        self.bind = bind
 
 
 _UNBOUND = object()
@@ -897,6 +900,9 @@ class Executor(object):
         elif isinstance(target, ast.Attribute):
             obj = self.eval(target.value, st)
             if not isinstance(obj, SymObject):
+                if hasattr(obj, 'vc_setattr'):
+                    obj.vc_setattr(target.attr, v, self, st, target)
+                    return
                 raise VCError('attribute store on %r' % (obj,))
             obj.attrs[target.attr] = v
         elif isinstance(target, ast.Subscript):
@@ -993,6 +999,10 @@ class Executor(object):
         if tgt is None:
             return None
         module, fn, self_obj, closure = tgt
+        if any(isinstance(a, ast.Call) and isinstance(a.func, ast.Name) and
+               a.func.id == 'addr_of' for a in node.args):
+            # C out-parameters: handled by expr_Call (no forking inside)
+            return None
         args = []
         for a in node.args:
             if isinstance(a, ast.Starred):
@@ -1145,11 +1155,23 @@ class Executor(object):
         a = node.attr
         if isinstance(base, SymObject):
             if a in base.attrs:
-                return base.attrs[a]
+                v = base.attrs[a]
+                if isinstance(v, Native) and v.bind:
+                    # a method model: receives the object of THIS state
+                    return Native(lambda ex, s_, ar, kw, n, _f=v.fn, _o=base:
+                                  _f(ex, s_, [_o] + list(ar), kw, n), v.name)
+                return v
             if base.cls is not None:
                 r = self.find_method(base, a)
                 if r is not None:
                     return _BoundMethod(base, r[0], r[1], r[2])
+            fac = getattr(base, 'lazy_factory', None)
+            if fac is not None:
+                # attributes the contract models on demand
+                v = fac(a)
+                if v is not None:
+                    base.attrs[a] = v
+                    return v
             if getattr(self, 'lazy_attrs', False):
                 # an instance attribute the contract leaves arbitrary
                 v = z3.Real('%s.%s' % (base.name, a))
@@ -1931,9 +1953,10 @@ class Native(object):
     """A callable supplied by a contract (model of an external function):
     fn(ex, st, args, kwargs, node) -> value."""
 
-    def __init__(self, fn, name=''):
+    def __init__(self, fn, name='', bind=False):
         self.fn = fn
         self.name = name
+        self.bind = bind
 
 
 class SymSeq(object):
